@@ -104,6 +104,31 @@ func addSubstProcs(r rng, p *sdl.Program) {
 		}
 		p.Procs = append(p.Procs, pr)
 	}
+	// a component whose early reference is substituted asks for itself by name through a field of
+	// one of its own interfaces, declared in front of its other points: it is handed its own
+	// early substitute (not itself, so not filtered) and becomes the first dependent on record
+	for _, pr := range p.Procs {
+		for _, ru := range pr.Rules {
+			if ru.Action != "substitute" || ru.At != sdl.CbEarly || !r.p(0.35) {
+				continue
+			}
+			tgt := p.InstByID(ru.Target)
+			if tgt == nil {
+				continue
+			}
+			t := p.TypeByName(tgt.Type)
+			if t.Zero || t.Local || len(t.Ifaces) == 0 || p.IsSealed(t.Ifaces[0]) {
+				continue
+			}
+			has := false
+			for _, pt := range t.Points {
+				has = has || pt.Field == "FS"
+			}
+			if !has {
+				t.Points = append([]*sdl.Point{{Field: "FS", Kind: sdl.KIface, Iface: t.Ifaces[0], Sel: sdl.SelName, Name: p.NameOf(tgt), Optional: true}}, t.Points...)
+			}
+		}
+	}
 	// look-ups from a before-instantiation hook preferably lead back to the component that is
 	// being instantiated: its partner on a dependency cycle is looked up
 	{
